@@ -41,7 +41,7 @@ def cases(tier, seed):
 
 def required(tier):
     req = ['fq2.%s.%s' % (op, fm) for op in ('add', 'sub', 'mul') for fm in FORMS]
-    req += ['fq2.neg.v', 'fq2.neg.r', 'fq2.new', 'fq2.real', 'fq2.imaginary', 'fq2.is_even', 'fq2.is_zero', 'fq2.is_zero/zero',
+    req += ['result/self-consistent', 'fq2.neg.v', 'fq2.neg.r', 'fq2.new', 'fq2.real', 'fq2.imaginary', 'fq2.is_even', 'fq2.is_zero', 'fq2.is_zero/zero',
             'fq2.to_slice', 'fq2.from_slice', 'fq2.from_slice/out-of-range', 'fq2.eq', 'axiom.comm', 'axiom.assoc', 'axiom.distrib', 'axiom.one',
             'sqr.hook', 'sqr.g2double', 'g2.mixed_add', 'sop.2', 'sop.4', 'carry.mul/0', 'carry.mul/1', 'carry.sop4/2', 'mul/exact-cancellation', 'mul/accumulator-boundary', 'sop.2/accumulator-boundary']
     return req
@@ -58,6 +58,23 @@ def run(ctx, spec):
 
     def nt(*xs):
         return any(x[0] and x[1] for x in xs)
+
+    def self_consistency(v, key):
+        # the encoding reduces a coordinate stored as the unreduced modulus to zero, so a result is also asked about itself: it must
+        # compare equal to the literal of its value, and is_zero of the element / of each component must agree with the value
+        if v[0] and v[1] and rng.random() < 0.75:
+            return
+        lines.append('_ fq2.eq $t %s' % f2hex(v))
+        exp.append(('result/self-consistent', 'bool true', ('res-eq',) + key, True))
+        lines.append('_ fq2.is_zero $t')
+        exp.append(('result/self-consistent', 'bool ' + str(v == (0, 0)).lower(), ('res-z',) + key, True))
+        for part, j in (('real', 0), ('imaginary', 1)):
+            lines.append('c fq2.%s $t' % part)
+            exp.append(('fq2.' + part, 'ok ' + h32(v[j]), ('res-' + part,) + key, True))
+            lines.append('_ fq.is_zero $c')
+            exp.append(('result/self-consistent', 'bool ' + str(v[j] == 0).lower(), ('res-cz', part) + key, True))
+            lines.append('_ fq.eq $c %s' % h32(v[j]))
+            exp.append(('result/self-consistent', 'bool true', ('res-ceq', part) + key, True))
 
     kinds = ['add', 'sub', 'mul', 'mul', 'mul', 'neg', 'acc', 'pred', 'axiom', 'sqr', 'g2', 'sop']
     for _ in range(n):
@@ -90,15 +107,17 @@ def run(ctx, spec):
         if kind in ('add', 'sub', 'mul'):
             fm = FORMS[rng.randrange(6)]
             v = f2add(x, y) if kind == 'add' else f2sub(x, y) if kind == 'sub' else f2mul(x, y)
-            lines.append('_ fq2.%s.%s %s %s' % (kind, fm, f2hex(x), f2hex(y)))
+            lines.append('t fq2.%s.%s %s %s' % (kind, fm, f2hex(x), f2hex(y)))
             exp.append(('fq2.%s.%s' % (kind, fm), 'ok ' + f2hex(v), (kind, x, y), nt(x, y)))
+            self_consistency(v, (kind, x, y))
             if kind == 'mul':
                 for c in mul_carries(x, y):
                     ctx.classes['carry.mul/%d' % c] += 1
         elif kind == 'neg':
             fm = 'vr'[rng.randrange(2)]
-            lines.append('_ fq2.neg.%s %s' % (fm, f2hex(x)))
+            lines.append('t fq2.neg.%s %s' % (fm, f2hex(x)))
             exp.append(('fq2.neg.%s' % fm, 'ok ' + f2hex(f2neg(x)), ('neg', x), nt(x)))
+            self_consistency(f2neg(x), ('neg', x))
         elif kind == 'acc':
             lines.append('a fq2.new %s %s' % (h32(x[0]), h32(x[1])))
             exp.append(('fq2.new', 'ok ' + f2hex(x), ('new', x), nt(x)))
